@@ -34,13 +34,13 @@ MANIFEST = {
              "covariance times its denominator is u u^T and is symmetric; simulating the flat VAR recursion with the estimated residuals "
              "reproduces the data for every horizon (induction over periods, stated both abstractly and about the executable model's "
              "simulate); the companion recursion's top block is the VAR recursion; the companion mean solves (I - sum A_i) mu = c and is a "
-             "fixed point of the recursion. The public wrappers are model functions too: what estimate(target_db=...) returns is the finite-map union target | output (theorem: every produced name has its fresh value, every other name of the target is carried over), and an estimated variant is a state machine with the companion-matrix memo (theorem, by induction over request histories: every ordinary / deviation-mode request is answered with the companion matrix and the constant of the mode it asked for, whatever was requested before). The executable model (exact rationals, NaN as none, lag stacking, complete-column mask, prior "
+             "fixed point of the recursion; a change of units of the data leaves the lag matrices unchanged and multiplies the intercept exactly. Prior dummy observations are model functions with entry theorems (mean prior stacked lag by lag, Minnesota diagonal with (l+1)^kappa) and the design of an estimate with a prior is [fitted data | dummies], on which the normal equations hold; the rejection branches (no complete period, failed checked solve, zero covariance denominator) are characterised; the variant loops of estimate and simulate are maps with variant locality. The public wrappers are model functions too: what estimate(target_db=...) returns is the finite-map union target | output (theorem: every produced name has its fresh value, every other name of the target is carried over), and an estimated variant is a state machine with the companion-matrix memo (theorem, by induction over request histories: every ordinary / deviation-mode request is answered with the companion matrix and the constant of the mode it asked for, whatever was requested before). The executable model (exact rationals, NaN as none, lag stacking, complete-column mask, prior "
              "dummy observations, dof correction, residuals on all periods, companion form, mean, simulation with exogenous impact) is tied to "
              "irispie.RedVAR on every run by differential correspondence: masks, NaN patterns, companion matrices and dyadic simulations "
              "exactly, LAPACK results within 1e-7 relative on instances whose normal matrix has a measured condition number < 1e7. "
              "An independent numpy.linalg.lstsq / identity oracle on the real code supplies the replay."),
     "design": "7/C18",
-    "note": ("Schematic theorems + exact-arithmetic validation: LAPACK solve/eigvals/solve_discrete_lyapunov are not modelled, their results "
+    "note": ("The companion mean is proved to be a fixed point and unique given (I - sum A) mu = c; that the model's mean satisfies this equation, that the model's estimate minimises the SSR and that resimulation returns the data end to end are proved in Props/QMatBridge.lean (audited with this check). Schematic theorems + exact-arithmetic validation: LAPACK solve/eigvals/solve_discrete_lyapunov are not modelled, their results "
              "are compared with the exact rational answer or validated through residual equations; floating-point rounding is outside the theorems."),
     "technique": "Lean 4 proof over Mathlib matrices + executable rational model + differential correspondence (exact / tolerance) + independent lstsq oracle",
 }
@@ -914,11 +914,23 @@ def merge_line(target_keys, out_names):
 
 
 def do_est_cases(ctx: Ctx, cases, with_model=True):
-    lines, owners = [], []
+    # one request per case: a multi-variant case goes through the model's variant loop (`estv`, variants separated by `||`)
+    lines = []
     for ci, case in enumerate(cases):
-        for vid in range(len(case["variants"])):
-            lines.append(est_line(case, vid)); owners.append(ci)
-    replies = ctx.model("C18", lines) if with_model else None
+        per = [est_line(case, vid) for vid in range(len(case["variants"]))]
+        lines.append(per[0] if len(per) == 1 else "estv " + " || ".join(l[len("est "):] for l in per))
+    raw = ctx.model("C18", lines) if with_model else None
+    replies = None
+    if raw is not None:
+        replies = []
+        for case, rep in zip(cases, raw):
+            nv_ = len(case["variants"])
+            parts = rep.split(" || ") if nv_ > 1 else [rep]
+            if len(parts) != nv_:
+                parts = [rep] * nv_          # bad-op or a wrong number of results: every variant then disagrees below
+            else:
+                ctx.streams_compared["est-variant-loop"] = ctx.streams_compared.get("est-variant-loop", 0) + (nv_ if nv_ > 1 else 0)
+            replies += parts
     merge_cases = []
     k = 0
     for ci, case in enumerate(cases):
